@@ -164,6 +164,22 @@ fn fmt_result(files: &Files, r: &Result<verif::VConnectionMeta, String>) -> Stri
     }
 }
 
+/// copy a name of one class into another (or the same) class: the configuration must be refused
+fn inject_duplicate(ctx: &mut Ctx, h: &mut Hosts) -> Option<String> {
+    let from = ctx.rng.below(4) as usize;
+    let to = ctx.rng.below(4) as usize;
+    let names: Vec<String> = [&h.main, &h.ping, &h.speed, &h.rproxy][from].clone();
+    let name = names.first()?.clone();
+    let cls = ["main", "ping", "speedtest", "reverse_proxy"];
+    match to {
+        0 => h.main.push(name.clone()),
+        1 => h.ping.push(name.clone()),
+        2 => h.speed.push(name.clone()),
+        _ => h.rproxy.push(name.clone()),
+    }
+    Some(format!("{} of {} also in {}", name, cls[from], cls[to]))
+}
+
 fn gen_hosts(ctx: &mut Ctx) -> Hosts {
     let pool = ["a", "b", "main", "ping", "x", "a.b", "b.main", "x.a.b", "main.example", "alt.main.example", "ping.example", "p.q.r"];
     let mut h = Hosts::default();
@@ -213,8 +229,53 @@ pub fn run(ctx: &mut Ctx) {
     let files = Files::new();
     let alpn_pool: Vec<Vec<u8>> = vec![b"h3".to_vec(), b"h2".to_vec(), b"http/1.1".to_vec(), b"spdy/3".to_vec(), vec![0xff, 0xfe], b"H2".to_vec()];
     let n_cfg = if ctx.thorough() { 1500 } else { 150 };
-    for _ in 0..n_cfg {
-        let h = gen_hosts(ctx);
+    // the same host name in two entries, for every pair of classes: refused at build time and at reload
+    for from in 0..4usize {
+        for to in 0..4usize {
+            let mut h = Hosts { main: vec!["m.example".into()], ping: vec!["p.example".into()], speed: vec!["s.example".into()], rproxy: vec!["r.example".into()], alt: vec![] };
+            let name = [&h.main, &h.ping, &h.speed, &h.rproxy][from][0].clone();
+            match to {
+                0 => h.main.push(name.clone()),
+                1 => h.ping.push(name.clone()),
+                2 => h.speed.push(name.clone()),
+                _ => h.rproxy.push(name.clone()),
+            }
+            let cls = ["main", "ping", "speedtest", "reverse_proxy"];
+            let d = format!("{} of {} also in {}", name, cls[from], cls[to]);
+            ctx.stat("duplicate_pairs");
+            if built_hosts(&files, &h).is_ok() {
+                ctx.oracle_failure("duplicate_host_accepted", &format!("TLS hosts configuration with the same host name in two entries ({}) passed validation", d));
+            }
+            if let Ok(ths) = toml_hosts(&files, &h, false) {
+                let valid = Hosts { main: vec!["m.example".into()], ping: vec![], speed: vec![], rproxy: vec![], alt: vec![] };
+                if let Some(core) = make_core(&files, (true, true, true), true, &valid) {
+                    if core.reload_tls_hosts_settings(ths).is_ok() {
+                        ctx.oracle_failure("duplicate_host_accepted", &format!("reload with the same host name in two entries ({}) was accepted", d));
+                    }
+                }
+            }
+        }
+    }
+    for k in 0..n_cfg {
+        let mut h = gen_hosts(ctx);
+        if k % 6 == 5 {
+            if let Some(d) = inject_duplicate(ctx, &mut h) {
+                ctx.stat(&format!("config_duplicate_{}", d.split(" of ").nth(1).unwrap_or("").replace(" also in ", "_")));
+                if built_hosts(&files, &h).is_ok() {
+                    ctx.oracle_failure("duplicate_host_accepted", &format!("TLS hosts configuration with the same host name in two entries ({}) passed validation: {:?}", d, h));
+                }
+                if let Ok(ths) = toml_hosts(&files, &h, false) {
+                    let mut valid = gen_hosts(ctx);
+                    valid.alt.clear();
+                    if let Some(core) = make_core(&files, (true, true, true), true, &valid) {
+                        if core.reload_tls_hosts_settings(ths).is_ok() {
+                            ctx.oracle_failure("duplicate_host_accepted", &format!("reload with the same host name in two entries ({}) was accepted: {:?}", d, h));
+                        }
+                    }
+                }
+                continue;
+            }
+        }
         let e = loop {
             let e = (ctx.rng.chance(2, 3), ctx.rng.chance(2, 3), ctx.rng.chance(1, 2));
             if e.0 || e.1 || e.2 {
@@ -304,8 +365,8 @@ pub fn run(ctx: &mut Ctx) {
                 let mut garbage = false;
                 match ctx.rng.below(5) {
                     0 => {
-                        if let Some(m) = h.main.first().cloned() {
-                            h.ping.push(m);
+                        if let Some(d) = inject_duplicate(ctx, &mut h) {
+                            ctx.stat(&format!("reload_duplicate_{}", d.split(" of ").nth(1).unwrap_or("").replace(" also in ", "_")));
                         }
                     }
                     1 => {
